@@ -188,10 +188,10 @@ def run(ctx):
         else:
             Vs.add(r[0], {"text": lang.render(sc)}, r[1])
     cov = {"evaluations": len(scripts), "distinct_nontrivial": len(distinct),
-           "rule": "valid scripts from the shared alphabet (55 argument shapes incl. every print form of ints/floats/complex, booleans, strings, variables, array elements, arrays, parameter expressions over overlapping names, register expressions; "
-                   "10 list-valued keyword shapes; 10 mode forms; 7 metadata variants): every single argument x metadata, every ordered pair as 2 positional / positional+keyword / 2 keywords / 2 statements, lists x shapes, list pairs, mode forms x shapes, "
+           "rule": "valid scripts from the shared alphabet (%d argument shapes incl. every print form of ints/floats/complex, booleans, strings, variables, array elements, arrays, parameter expressions over overlapping and look-alike names, register expressions; "
+                   "%d list-valued keyword shapes; %d mode forms; %d metadata variants): every single argument x metadata, every ordered pair as 2 positional / positional+keyword / 2 keywords / 2 statements, lists x shapes, list pairs, mode forms x shapes, "
                    "loops, tdm programs with p-arrays; thorough adds triples, options x pairs and 3-statement scripts. Each is loaded, serialised and re-loaded until the text repeats (cap %d generations). "
-                   "non-trivial = script loads and has >= 1 operation with an argument; distinct by rendered text" % GEN_CAP,
+                   "non-trivial = script loads and has >= 1 operation with an argument; distinct by rendered text" % (len(A.ARG_SHAPES), len(A.KW_LISTS) + len(A.KW_LISTS_T), len(A.MODE_FORMS), len(A.METAS), GEN_CAP),
            "samples": [lang.render(s) for s in common.sample(scripts, 4)], "exhaustive": True, "by_family": dict(fam), **dict(stats)}
     return {"coverage": cov, "violations": Vs.records(),
             "assumptions": ["numbers/booleans/strings/lists/arrays compared exactly and kind-aware; symbolic arguments by evaluation at 3 points to 1e-9", "variables of non-tdm programs and whether an argument-less operation has an args key are not compared"]}
